@@ -812,4 +812,106 @@ theorem pollInner_prog_offline (c : Ctx) (now l : Int) (hs : Sil c l) (hinv : In
   · cases hu
   · obtain ⟨_, hu⟩ := hu; cases hu
 
+/-- **One silent poll** (any poll time): under the invariant the poll returns regularly, keeps the
+invariant, parameters and connectivity, and either hands a telegram to the PHY or leaves the context
+silent with the same stamp; in the latter case, if the poll was `Late`, start and end state are
+related by `Deferred`. -/
+theorem silent_step (c : Ctx) (now l : Int) (hinv : Inv c.s c.apps) (hs : Sil c l) :
+    ∃ c', pollInner c now false = .ok c' ∧ Inv c'.s c'.apps ∧ c'.apps.length = c.apps.length ∧
+      c'.s.online = true ∧ c'.s.p = c.s.p ∧
+      (c'.tx ≠ none ∨ (Sil c' l ∧ (Late c.s.p l now → Deferred c.s c'.s))) := by
+  obtain ⟨c', hc', hinv', hlen⟩ := pollInner_good c now false hinv hs.tx
+  refine ⟨c', hc', hinv', hlen, ?_⟩
+  by_cases hoff : c.s.st = .offline
+  · obtain ⟨h1, h2, h3⟩ := pollInner_prog_offline c now l hs hinv hoff c' hc'
+    exact ⟨h2, h1, h3.imp id (fun ⟨a, b⟩ => ⟨a, fun hl => absurd hl b⟩)⟩
+  · obtain ⟨h1, h2, h3⟩ := pollInner_prog c now l hs hinv hoff c' hc'
+    exact ⟨h2, h1, h3⟩
+
+/-! ### Counting polls -/
+
+/-- Upper bound on the number of `Late` silent polls a station needs until it transmits. -/
+def pollsToTx (s : Station) : Nat :=
+  match s.st with
+  | .useToken .. | .awaitData .. => 2
+  | .claimToken .scan | .claimToken (.scanAwait _) =>
+    match s.gap with
+    | .waiting _ => 2
+    | .doPoll cur => if nextGapPoll s.p.address s.ring.ns s.p.hsa cur = .waiting then 3 else 1
+  | _ => 1
+
+theorem pollsToTx_le (s : Station) : 1 ≤ pollsToTx s ∧ pollsToTx s ≤ 3 := by
+  unfold pollsToTx
+  repeat' split
+  all_goals omega
+
+/-- A deferred poll strictly lowers the bound. -/
+theorem deferred_lt {s s' : Station} (h : Deferred s s') : pollsToTx s' < pollsToTx s := by
+  rcases h with ⟨hu | hu, hs'⟩ | ⟨hs, ⟨r, hr⟩, hs'⟩ | ⟨hs, cur, hc, hn, hs', hg'⟩
+  · obtain ⟨d, f, hu⟩ := hu
+    simp [pollsToTx, hu, hs']
+  · obtain ⟨a, d, hu⟩ := hu
+    simp [pollsToTx, hu, hs']
+  · simp [pollsToTx, hs, hr, hs']
+  · rcases hs with hs | ⟨a, hs⟩
+    · simp [pollsToTx, hs, hc, hn, hs', hg']
+    · simp [pollsToTx, hs, hc, hn, hs', hg']
+
+/-- Some poll of the silent-bus schedule `ts` (nothing arrives between the polls, PHY idle) returns
+regularly with a telegram handed to the PHY, all earlier polls having returned regularly. -/
+def TransmitsWithin (s : Station) (apps : Apps) (rx : Bytes) : List Int → Prop
+  | [] => False
+  | t :: ts => ∃ c, s.poll apps t false rx = .ok c ∧ (c.tx ≠ none ∨ TransmitsWithin c.s c.apps c.rx ts)
+
+theorem transmitsWithin_append (ts ts' : List Int) : ∀ (s : Station) (apps : Apps) (rx : Bytes),
+    TransmitsWithin s apps rx ts → TransmitsWithin s apps rx (ts ++ ts') := by
+  induction ts with
+  | nil => intro s apps rx h; cases h
+  | cons t ts ih =>
+    intro s apps rx h
+    obtain ⟨c, hc, h⟩ := h
+    exact ⟨c, hc, h.imp id (ih _ _ _)⟩
+
+/-- Late phase: `pollsToTx` late polls suffice. -/
+theorem late_polls_transmit (p : Params) (l : Int) : ∀ (n : Nat) (late : List Int) (s : Station) (apps : Apps),
+    Inv s apps → s.online = true → s.lastBusActivity = some l → s.p = p →
+    (∀ t ∈ late, Late p l t) → pollsToTx s ≤ n → n ≤ late.length → TransmitsWithin s apps [] late := by
+  intro n
+  induction n with
+  | zero => intro late s apps _ _ _ _ _ hr _; have := (pollsToTx_le s).1; omega
+  | succ n ih =>
+    intro late s apps hinv hon hl hp hlate hr hn
+    cases late with
+    | nil => simp at hn
+    | cons t ts =>
+      obtain ⟨c', hc', hinv', -, hon', hp', h⟩ := silent_step { s := s, apps := apps, rx := [] } t l hinv ⟨hon, rfl, rfl, hl⟩
+      refine ⟨c', hc', ?_⟩
+      rcases h with h | ⟨hs', hd⟩
+      · exact Or.inl h
+      · right
+        have hlt := deferred_lt (hd (by rw [hp]; exact hlate t (by simp)))
+        rw [hs'.rx]
+        exact ih ts c'.s c'.apps hinv' hon' hs'.last (hp'.trans hp) (fun t' ht' => hlate t' (by simp [ht']))
+          (by simp only at hlt; omega) (by simp at hn; omega)
+
+/-- Early phase: polls at arbitrary earlier times either transmit or leave the station silent with the
+same stamp. -/
+theorem pre_polls (p : Params) (l : Int) (rest : List Int) : ∀ (pre : List Int) (s : Station) (apps : Apps),
+    Inv s apps → s.online = true → s.lastBusActivity = some l → s.p = p →
+    (∀ (s' : Station) (apps' : Apps), Inv s' apps' → s'.online = true → s'.lastBusActivity = some l → s'.p = p →
+      TransmitsWithin s' apps' [] rest) →
+    TransmitsWithin s apps [] (pre ++ rest) := by
+  intro pre
+  induction pre with
+  | nil => intro s apps hinv hon hl hp hrest; exact hrest s apps hinv hon hl hp
+  | cons t ts ih =>
+    intro s apps hinv hon hl hp hrest
+    obtain ⟨c', hc', hinv', -, hon', hp', h⟩ := silent_step { s := s, apps := apps, rx := [] } t l hinv ⟨hon, rfl, rfl, hl⟩
+    refine ⟨c', hc', ?_⟩
+    rcases h with h | ⟨hs', -⟩
+    · exact Or.inl h
+    · right
+      rw [hs'.rx]
+      exact ih c'.s c'.apps hinv' hon' hs'.last (hp'.trans hp) hrest
+
 end PV
